@@ -301,6 +301,29 @@ def module_tables(repo: Repo, mod: Module) -> dict[str, dict]:
     def value(node, env):
         if isinstance(node, ast.Name) and node.id in tables:
             return tables[node.id]
+        if isinstance(node, ast.Call) and isinstance(node.func, ast.Name) and node.func.id in mod.funcs and not any(isinstance(a, ast.Starred) for a in node.args):
+            # a module-level helper that builds (part of) a table: interpreted (sa/minipy.py) on the evaluated arguments
+            from .minipy import Interp, Raised, Unsupported
+
+            f_ = mod.funcs[node.func.id]
+            params = [a.arg for a in f_.args.args]
+            bound = dict(zip(params, [value(a, env) for a in node.args]))
+            for k in node.keywords:
+                if k.arg:
+                    bound[k.arg] = value(k.value, env)
+            g = {"dict": dict}
+            for nm in {n.id for n in ast.walk(f_) if isinstance(n, ast.Name)} - set(params) - {"dict", "range", "len", "list", "tuple", "int", "str"}:
+                if nm in tables:
+                    g[nm] = tables[nm]
+                else:
+                    try:
+                        g[nm] = ev.name(nm)
+                    except (Unknown, Exception):
+                        pass
+            try:
+                return Interp(g).call_function(f_, bound)
+            except (Unsupported, Raised) as exc:
+                raise Unknown(f"helper {node.func.id}() not evaluable: {exc}")
         return ev.eval(node, {**tables, **env})
 
     def bind(target, item, env):
